@@ -606,12 +606,8 @@ impl DirTourist {
 			match entry.file_type().await {
 				Ok(ft) => {
 					if ft.is_dir() {
-						if !self.filter.check_dir(&path) {
-							trace!("path is ignored, adding to skip list");
-							self.skip(path);
-							continue;
-						}
-
+						// whether it is ignored is decided when it is visited, once the ignore
+						// files of this directory (which may re-include it) have been loaded
 						trace!("found a dir, adding to list");
 						self.to_visit.push(path);
 					} else {
